@@ -14,7 +14,8 @@ RULE = ("R3 documents (random dialect of the 80, random element combination, Uni
         "random indentation/padding/CRLF) are rendered from a document model that records the intended AST; the real "
         "parser's AST (ids and locations removed) must equal it, carry nothing that is not in the source (G9) and its "
         "builder events must be a derivation (G4).  The 41 corpus documents are compared with their golden "
-        ".ast.ndjson.  Distinct = hash of the source text; non-trivial = the document has at least one line.")
+        ".ast.ndjson.  Distinct = hash of the source text; non-trivial = the document has at least one line."
+        " Also: families on reused Parser/TokenMatcher objects with perturbing predecessors (returned documents re-checked for later modification), boundary documents (special values, 12 tags on a line, indentation of 98..999 blanks, ids crossing 1000), threshold documents (one dimension of size n = 9..1025), every fourth document parsed from a TokenScanner object, every fifth read by a matcher whose default dialect is the document's dialect.")
 ASSUMPTIONS = [
     "the renderer's soundness rules (DESIGN.md R3): names/texts/cells never start or end with white space, description lines are checked against the kinds the grammar expects there, every emitted line is classified on its final rendered form",
     "each generated document is first re-read by the grammar automaton R1 on its intended line kinds; a disagreement is a generator bug and makes the run inconclusive, never a violation",
